@@ -8,6 +8,8 @@
    Lexer.v); every theorem holds for all [uw].  [parse] is the repaired parser (a ']' below depth 0 raises
    ValueError); [parse_pinned] is the code as pinned (C20_pinned_defect). *)
 From Isobar Require Import Base.Prelude Notation.Lexer Notation.Parser Notation.ParserProofs.
+From Isobar Require Import Notation.PSeq Notation.PSeqProofs Tonal.Key Generated.Tables.
+From Coq Require Import String Ascii.
 Local Notation length := List.length (only parsing).
 
 (** ** Round trip: formatting any nested sequence and parsing it back is the identity.
@@ -164,3 +166,71 @@ Example C20_pinned_defect :
   parse_pinned (fun _ => false) [93; 32; 91; 32; 49] = Ok [Node []; Leaf (VInt 1)] /\
   parse (fun _ => false) [49; 32; 93; 32; 50] = Reject.
 Proof. vm_compute. repeat split; reflexivity. Qed.
+
+(** ** A nested group contributes one element per cycle of its parent.
+    [kth k p] is the k-th value (k = 0, 1, ...) the pattern state p yields (PSequence.__next__ with
+    Pattern.value on nested patterns), [pattern_of g] the object parse_notation returns.  For every parsed
+    sequence g without empty groups, of any depth: on cycle c, position i yields the c-th value of element i —
+    an atom yields itself every time (C20_cycle_atom); a nested group is again a [pattern_of] (C20_cycle_nested),
+    so it yields on the c-th cycle of its parent what the same theorem says about its own value number c,
+    i.e. its (c mod width)-th element, one element per cycle of the parent. *)
+Theorem C20_cycle : forall g c i,
+  g <> [] -> forallb no_empty_group g = true -> (i < length g)%nat ->
+  kth (c * length g + i) (pattern_of g) = kth c (init (nth i g (Leaf (VInt 0)))).
+Proof. intros. apply cycle_trees; assumption. Qed.
+Print Assumptions C20_cycle.
+
+Theorem C20_cycle_atom : forall c v, kth c (init (Leaf v)) = Some v.
+Proof. intros. apply kth_leaf. Qed.
+
+Theorem C20_cycle_nested : forall ch, init (Node ch) = pattern_of ch.
+Proof. reflexivity. Qed.
+
+(* nextn(K) returns exactly these values *)
+Theorem C20_cycle_nextn : forall K g k, (k < K)%nat -> nth_error (outputs K g) k = kth k (pattern_of g).
+Proof. intros. unfold outputs. apply pnextn_kth. assumption. Qed.
+Print Assumptions C20_cycle_nextn.
+
+Example C20_cycle_nonvacuous :
+  (* '1 -2 [10 11] [c#4 [30.1 -30.2 30.3]]', the string of tests/test_shorthand_notation.py *)
+  let s := [49;32;45;50;32;91;49;48;32;49;49;93;32;91;99;35;52;32;91;51;48;46;49;32;45;51;48;46;50;32;51;48;46;51;93;93] in
+  exists g, parse (fun _ => false) s = Ok g /\ forallb no_empty_group g = true /\ length g = 4%nat /\
+    outputs 16 g = [VInt 1; VInt (-2); VInt 10; VStr [99;35;52]; VInt 1; VInt (-2); VInt 11; VFloat [51;48;46;49];
+                    VInt 1; VInt (-2); VInt 10; VStr [99;35;52]; VInt 1; VInt (-2); VInt 11; VFloat [45;51;48;46;50]].
+Proof. eexists. vm_compute. repeat split; reflexivity. Qed.
+
+(** ** The note-name tokens are note names: util.note_name_to_midi_note (model: Tonal/Key.v, table regenerated
+    from the source) maps every note token the parser can keep to letter + accidental + 12 * (octave + 1) —
+    except e#N and b#N, which the tokenizer accepts although isobar has no such name (UnknownNoteName);
+    recorded as an observation, the property does not ask for more than keeping the token as a string. *)
+Definition string_of_codes (t : str) : string :=
+  string_of_list_ascii (map (fun c => ascii_of_nat (Z.to_nat c)) t).
+Definition note_tokens : list str :=
+  flat_map (fun c => flat_map (fun d => [[c; d]; [c; ch_sharp; d]]) (zrange 48 10)) (zrange 97 7).
+Definition pitch_class (c : Z) : Z := nth (Z.to_nat (c - 97)) [9; 11; 0; 2; 4; 5; 7] 0.
+Definition expected_midi (t : str) : option Z :=
+  match t with
+  | [c; d] => Some ((d - 48 + 1) * 12 + pitch_class c)
+  | [c; _; d] => if (c =? 101) || (c =? 98) then None else Some ((d - 48 + 1) * 12 + pitch_class c + 1)
+  | _ => None
+  end.
+
+Lemma note_tokens_complete t : note_text t = true -> In t note_tokens.
+Proof.
+  intros H. destruct (note_text_shape t H) as [(c & d & Hc & Hd & E) _].
+  unfold note_tokens. apply in_flat_map. exists c. split; [apply in_zrange; cc|].
+  apply in_flat_map. exists d. split; [apply in_zrange; cc|].
+  destruct E as [-> | ->]; simpl; auto.
+Qed.
+
+Theorem C20_note_tokens : forall t, note_text t = true ->
+  note_name_to_midi_note note_names (string_of_codes t) = expected_midi t.
+Proof.
+  intros t H. apply note_tokens_complete in H.
+  assert (A : forallb (fun t => option_eqb Z.eqb (note_name_to_midi_note note_names (string_of_codes t)) (expected_midi t))
+                note_tokens = true) by (vm_compute; reflexivity).
+  rewrite forallb_forall in A. specialize (A t H).
+  destruct (note_name_to_midi_note note_names (string_of_codes t)), (expected_midi t); simpl in A;
+    try discriminate; try reflexivity. f_equal. lia.
+Qed.
+Print Assumptions C20_note_tokens.
